@@ -38,7 +38,8 @@ theorem generated_hypotheses :
 
 /-- The statements of the source that the model mirrors are the ones it was written against:
 both kernels mask `alpha` by `has_converged` after the safe division, the residual norm is masked by
-`rhs_is_zero`, the stopping rule and the tridiagonal guard have the modelled form, and
+`rhs_is_zero`, the stopping rule and the tridiagonal guard have the modelled form, the tridiagonal block
+precedes the tolerance exit in the loop body, the warning guard is `not tolerance_reached and n_iter > 0`, and
 `LinearOperator._solve` passes the two settings as limits. -/
 theorem generated_structure :
     Generated.C08.kernelNoPrecond =
@@ -73,6 +74,10 @@ theorem generated_structure :
     Generated.C08.stopRule =
       "k >= min(10, max_iter - 1) and bool(residual_norm.mean() < tolerance) and (not (n_tridiag and k < min(n_tridiag_iter, max_iter - 1)))" ∧
     Generated.C08.stopBody = ["tolerance_reached = True", "break"] ∧
+    Generated.C08.loopOrder = ["assign:mvms", "kernel", "torch.norm(residual, 2, dim=-2, keepdim=True, out=residual_n",
+      "residual_norm.masked_fill_(rhs_is_zero, 0)", "torch.lt(residual_norm, stop_updating_after, out=has_converg",
+      "tridiag-block", "stop-rule"] ∧
+    Generated.C08.warnGuard = "not tolerance_reached and n_iter > 0" ∧
     Generated.C08.triGuard = "n_tridiag and k < n_tridiag_iter and update_tridiag" ∧
     Generated.C08.mvms = "mvms = matmul_closure(curr_conjugate_vec)" ∧
     Generated.C08.loopIter = "range(n_iter)" ∧
@@ -329,15 +334,23 @@ theorem cg_tridiag_symmetric {β : Type} [Add β] [Sub β] [Mul β] [Div β] [Ne
     rw [List.range_succ, List.foldl_append]
     exact triStep_ok N m (cs m) _ ih
 
-/-- **Known finding, machine-checked** (`known_findings.txt`, cell `C08/tridiag-empty/maxit=1/*`): the claim
-"the returned tridiagonal is the Lanczos matrix / its Ritz values lie in the spectrum" FAILS for
-`max_iter = max_tridiag_iter = 1` when the tolerance is met in the only iteration.  On the 1×1 system
-`2·x = 1` (tolerance `1e-3`) the model — like the code — runs one iteration, does not warn, returns the
-correct solution `1/2`, and returns the 1×1 tridiagonal matrix `[[0]]` although the only eigenvalue is 2:
-the `break` at `k = 0` precedes the tridiagonal update.  `cg_tridiag_entries` / `cg_tridiag_symmetric` are the
-partial statements that do hold (entries are right whenever the update is executed). -/
-theorem cg_tridiag_one_iter_counterexample :
-    Known.summary = (1, 1, false, [0], [1 / 2]) := by
+/-- **The final iteration's tridiagonal entries are written** (code after `fix:` be05109, tridiagonal block
+before the tolerance exit): on the 1×1 system `2·x = 1` with `max_iter = max_tridiag_iter = 1`, tolerance
+`1e-3` (met in the only iteration) the model — like the code now — runs one iteration, does not warn, returns
+`x = 1/2` and the 1×1 tridiagonal matrix `[[2]]`, the Lanczos matrix.  No `max_iter > 1` restriction is
+needed by `cg_tridiag_entries` / `cg_tridiag_symmetric`: they are statements about every executed update. -/
+theorem cg_tridiag_one_iter :
+    Known.summary = (1, 1, false, [2], [1 / 2]) := by
+  decide +kernel
+
+/-- **About the PREVIOUS code only** (before be05109; `Known.iterateBreakFirst` is that loop, tolerance exit
+first): on the same system it left `last_tridiag_iter = 0` with `T[0,0] = 0` untouched — the returned matrix
+was `[[0]]`, Ritz value 0 outside the spectrum `{2}` — whereas the current loop writes `T[0,0] = 2`.
+Kept as the machine-checked record of the fixed finding; moving the `break` back re-creates it (and breaks
+`generated_structure` and the `C08/tridiag-empty/maxit=1` implementation cell). -/
+theorem previous_code_tridiag_one_iter_counterexample :
+    Known.loopSummary (Known.iterateBreakFirst Known.ratOps Known.params1 Known.sysz1 1) = (1, true, 0, [0]) ∧
+    Known.loopSummary (iterate Known.ratOps Known.params1 Known.sysz1 1) = (1, true, 0, [2]) := by
   decide +kernel
 
 /-- *Partial* form of `cg_tridiag_eq_lanczos`.  Full claim (not closed): with `q_k = (−1)^k r_k/√(r_kᵀz_k)`
